@@ -68,7 +68,10 @@ def rule_cut(ctx, R="C20.1"):
         ctx.check(R, key + "/iteration-over-all-blocks", okf, render(fors[0]["iter"]) if fors else "no loop over blocks", site(CFG, lp))
         if fors:
             t2 = render(fors[0]["body"]).replace(" ", "")
-            ctx.check(R, key + "/flag-accumulates-updates", t2 == "{%s=(%s||basic_block.propagate_%s(&mutenv));}" % (flag, flag, kind), t2, site(CFG, fors[0]))
+            import sgrep
+            lv = render(fors[0]["pat"])
+            okf2 = sgrep.has(fors[0]["body"], "__f = __f || __b.propagate_%s(__e)" % kind, None, {"__f": flag, "__b": lv}) or sgrep.has(fors[0]["body"], "__f = __b.propagate_%s(__e) || __f" % kind, None, {"__f": flag, "__b": lv}) or sgrep.has(fors[0]["body"], "__f |= __b.propagate_%s(__e)" % kind, None, {"__f": flag, "__b": lv})
+            ctx.check(R, key + "/flag-accumulates-updates", okf2 and len(fors[0]["body"]["stmts"]) == 1, t2, site(CFG, fors[0]))
         # flag reset at the top of each iteration and true initially
         ctx.check(R, key + "/flag-initially-true", flag in le and render(strip(le[flag])) == "true", "let %s = %s" % (flag, render(le.get(flag)) if flag in le else "?"), site(CFG, fn))
         first = lp["body"]["stmts"][0] if lp["body"]["stmts"] else None
@@ -99,7 +102,9 @@ def rule_seeds(ctx, R="C20.2"):
             ctx.missing(R, "BasicBlock::propagate_" + kind)
             continue
         t = render(f["body"]).replace(" ", "")
-        ok = "forstmtinself.iter_mut()" in t and ("stmt.propagate_%s(env)" % kind) in t and not [n for n in walk(f["body"]) if n["k"] in ("Break", "Return", "Continue")]
+        import sgrep
+        oke, how = sgrep.each_calls(f["body"], "self.iter_mut()", "propagate_" + kind, None, allow_guard=lambda c: c[0] == "if" and not c[2] and c[1]["k"] == "Path")
+        ok = oke and not [n for n in walk(f["body"]) if n["k"] in ("Break", "Return", "Continue")]
         ctx.check(R, "BasicBlock::propagate_%s/every-statement" % kind, ok, t[:200], site(BB, f))
 
 
